@@ -57,7 +57,7 @@ type c03Plan struct {
 
 var c03P = &c03Plan{target: -1}
 
-var errC03Injected = errors.New("c03-injected-fault")
+var c03ErrInjected = errors.New("c03-injected-fault")
 
 // event registers one fault opportunity; it returns true when this event must fail.
 func (p *c03Plan) event(desc string) bool {
@@ -105,11 +105,11 @@ func c03VerifPoint(ctx context.Context, name string, index int) error {
 	switch name {
 	case "tx.precommit":
 		if c03P.event(fmt.Sprintf("pre%d", index)) {
-			return errC03Injected
+			return c03ErrInjected
 		}
 	case "tx.commit":
 		if c03P.event("commit") {
-			return errC03Injected
+			return c03ErrInjected
 		}
 	}
 	// every other point (tx.committed, tx.aftercommit, tx.done, tx.rollback, fs.*) is a crash point
@@ -133,7 +133,7 @@ type c03FailingReader struct {
 
 func (f *c03FailingReader) Read(p []byte) (int, error) {
 	if f.left <= 0 {
-		return 0, errC03Injected
+		return 0, c03ErrInjected
 	}
 	if len(p) > f.left {
 		p = p[:f.left]
@@ -141,7 +141,7 @@ func (f *c03FailingReader) Read(p []byte) (int, error) {
 	n, err := f.r.Read(p)
 	f.left -= n
 	if err == io.EOF {
-		return n, errC03Injected
+		return n, c03ErrInjected
 	}
 	return n, err
 }
@@ -153,11 +153,11 @@ func (s *c03Store) PutPart(ctx context.Context, tx database.Tx, id partstore.Par
 			// the data stream breaks after a few bytes: the inner store's own cleanup path runs
 			err := s.PartStore.PutPart(ctx, tx, id, &c03FailingReader{r: r, left: 3})
 			if err == nil {
-				return errC03Injected
+				return c03ErrInjected
 			}
 			return err
 		}
-		return errC03Injected
+		return c03ErrInjected
 	}
 	h := sha256.New()
 	err := s.PartStore.PutPart(ctx, tx, id, io.TeeReader(r, h))
@@ -169,7 +169,7 @@ func (s *c03Store) PutPart(ctx context.Context, tx database.Tx, id partstore.Par
 
 func (s *c03Store) GetPart(ctx context.Context, tx database.Tx, id partstore.PartId) (io.ReadCloser, error) {
 	if c03P.event("ps.get") {
-		return nil, errC03Injected
+		return nil, c03ErrInjected
 	}
 	rc, err := s.PartStore.GetPart(ctx, tx, id)
 	if err == nil {
@@ -180,7 +180,7 @@ func (s *c03Store) GetPart(ctx context.Context, tx database.Tx, id partstore.Par
 
 func (s *c03Store) DeletePart(ctx context.Context, tx database.Tx, id partstore.PartId) error {
 	if c03P.event("ps.del") {
-		return errC03Injected
+		return c03ErrInjected
 	}
 	err := s.PartStore.DeletePart(ctx, tx, id)
 	if err == nil {
@@ -198,7 +198,7 @@ type c03Stack struct {
 	dirs map[string]string // store letter -> directory
 }
 
-func newC03Stack(dir string) *c03Stack {
+func c03NewStack(dir string) *c03Stack {
 	verifx.Check(os.MkdirAll(dir, 0o755))
 	raw := verifx.Must(sqlite.OpenDatabase(filepath.Join(dir, "pithos.db")))
 	dDir, cDir := filepath.Join(dir, "parts"), filepath.Join(dir, "parts-cold")
@@ -237,7 +237,7 @@ func (n *c03Names) of(kind, raw string) string {
 	return fmt.Sprintf("%s%d", kind, c)
 }
 
-func shortHash(b []byte) string {
+func c03Hash(b []byte) string {
 	h := sha256.Sum256(b)
 	return hex.EncodeToString(h[:6])
 }
@@ -265,7 +265,7 @@ func (s *c03Stack) dirListing(nm *c03Names) string {
 		}
 		for _, name := range names {
 			content, _ := os.ReadFile(filepath.Join(s.dirs[letter], name))
-			hs := shortHash(content)
+			hs := c03Hash(content)
 			switch {
 			case len(name) == 32:
 				items = append(items, fmt.Sprintf("%s/%s=%s", letter, nm.of("p", name), hs))
@@ -299,7 +299,7 @@ func c03Calls(nm *c03Names, calls []c03Call) string {
 func c03ErrTok(err error) string {
 	k := errKind(err)
 	if k == "Other" {
-		if errors.Is(err, errC03Injected) {
+		if errors.Is(err, c03ErrInjected) {
 			return "Injected"
 		}
 		return "Other:" + verifx.HexS(err.Error())
@@ -358,7 +358,7 @@ func c03Snapshot(ctx context.Context, st storage.Storage, nm *c03Names) []string
 					add("O %s %s %s err:%s", bn, verifx.HexS(v.Key.String()), vid, c03ErrTok(err))
 				} else {
 					body, rerr := readAllClose(rs)
-					bs := shortHash(body) + fmt.Sprintf("/%d", len(body))
+					bs := c03Hash(body) + fmt.Sprintf("/%d", len(body))
 					if rerr != nil {
 						bs = "READFAIL"
 					}
@@ -438,7 +438,7 @@ type c03Capture struct {
 	out *verifx.Out
 }
 
-func newC03Capture(path string) *c03Capture {
+func c03NewCapture(path string) *c03Capture {
 	f := verifx.Must(os.Create(path))
 	saved := os.Stdout
 	os.Stdout = f
@@ -492,6 +492,8 @@ func c03Exec(c *s3hCase, cap *c03Capture, line string) (res string) {
 			entries = append(entries, storage.DeleteObjectsInputEntry{Key: storage.MustNewObjectKey(k)})
 		}
 		_, err = c.st.DeleteObjects(c.ctx, B(2), entries)
+		c.learnVids() // delete markers get version ids
+		cap.take()
 	case "uppcp": // UploadPartCopy of the whole source object
 		_, err = c.st.UploadPartCopy(c.ctx, B(2), K(3), B(4), K(5), c.uid(t[6]), atoi32(t[7]), nil)
 	default:
@@ -583,8 +585,8 @@ func runC03(args []string) {
 		seed := verifx.CaseSeed(f.Seed, k)
 		dir := filepath.Join(f.Scratch, fmt.Sprintf("c03-%d", k))
 		_ = os.RemoveAll(dir)
-		stk := newC03Stack(dir)
-		cap := newC03Capture(filepath.Join(f.Scratch, fmt.Sprintf("c03-%d.cap", k)))
+		stk := c03NewStack(dir)
+		cap := c03NewCapture(filepath.Join(f.Scratch, fmt.Sprintf("c03-%d.cap", k)))
 		c := &s3hCase{ctx: ctx, st: stk.st, out: cap.out, vids: map[string]int{}, bnams: []string{"b0", "b1"},
 			lastEtag: map[string]string{}, lastSize: map[string]int64{}, made: map[string]bool{}}
 		nm := &c03Names{ord: map[string]int{}}
